@@ -32,6 +32,7 @@ ASSUMPTIONS = [
     "with mutation_rate > 0 random child mutations are accepted when mutations are enabled or the callback log shows an approval of exactly that change",
 ]
 MIN_NONTRIVIAL_FRACTION = 0.15
+RULE += ' Added after the seeded rounds: 1/25 of the histories contain 70, 140 or 1010 alternating mutate / rollback (or refused mutate) calls on the root genome.'
 EXHAUSTIVE_NOTE = {"quick": "all op sequences of length 1..3 over 16 ops x 4 authorisation modes (4*(16+256+4096) = 17472), complete",
                    "thorough": "all op sequences of length 1..4 over 16 ops x 4 authorisation modes (279616), complete"}
 
@@ -55,13 +56,38 @@ _op = st.one_of(
 ).map(list)
 
 
+def _expand(ops):
+    """["rep", n, op_a, op_b] stands for n alternations of op_a, op_b: histories far longer than any bounded log the genome may keep"""
+    out = []
+    for op in ops:
+        if op[0] == "rep":
+            for k in range(op[1]):
+                out.append(list(op[2 + k % 2]))
+        else:
+            out.append(op)
+    return out
+
+
+_rep = st.tuples(st.just("rep"), st.sampled_from([70, 140, 1010]),
+                 st.one_of(st.tuples(st.just("mutate"), st.just(0), st.sampled_from(NAMES), st.integers(0, 9)),
+                           st.tuples(st.just("rollback"), st.just(0), st.sampled_from(NAMES))).map(list),
+                 st.one_of(st.tuples(st.just("mutate"), st.just(0), st.sampled_from(NAMES), st.integers(10, 19)),
+                           st.tuples(st.just("mutate"), st.just(0), st.sampled_from(NAMES + ["zz"]), _val)).map(list)).map(list)
+
+
 def strategy(tier):
+    plain = st.lists(_op, min_size=1, max_size=25)
+    long = st.tuples(st.lists(_op, max_size=4), _rep, st.lists(_op, min_size=1, max_size=8)).map(lambda t: t[0] + [t[1]] + t[2])
+    return _strategy(st.integers(0, 24).flatmap(lambda k: long if k == 0 else plain))
+
+
+def _strategy(ops):
     return st.fixed_dictionaries({
         "genes": st.lists(_gene, min_size=1, max_size=4, unique_by=lambda g: g[0]),
         "allow": st.sampled_from([False, False, False, True]),
         "approve": st.one_of(st.none(), st.lists(st.tuples(st.sampled_from(NAMES), _val).map(list), max_size=6)),
         "rate": st.sampled_from([0, 0, 0, 0, 0.5, 1]),
-        "ops": st.lists(_op, min_size=1, max_size=25),
+        "ops": ops,
     })
 
 
@@ -170,7 +196,7 @@ def judge(case):
                 return False
         return True
 
-    for i, op in enumerate(case["ops"]):
+    for i, op in enumerate(_expand(case["ops"])):
         name = op[0]
         idx = op[1] % len(family)
         g, m = family[idx]
